@@ -86,10 +86,13 @@ class Prov:
             raise KeyError(f"expression not in CFG: {ast.dump(expr)[:80]}")
         return n
 
-    def trace(self, expr: ast.AST, at: Optional[int] = None) -> Set[Path]:
+    def trace(self, expr: ast.AST, at: Optional[int] = None, keys: bool = False) -> Set[Path]:
+        """keys=True also returns the paths of subscript index expressions (marked by the step 'askey')"""
         if at is None:
             at = self.node_of(expr)
         out = self._trace(expr, at, frozenset(), 0)
+        if not keys:
+            out = {p for p in out if "askey" not in p}
         return out
 
     # ------------------------------------------------------------------
@@ -153,7 +156,7 @@ class Prov:
                 return self._ext(T(e.value), f"item:{sl.value!r}")
             if isinstance(sl, ast.UnaryOp) and isinstance(sl.op, ast.USub) and isinstance(sl.operand, ast.Constant):
                 return self._ext(T(e.value), f"item:-{sl.operand.value!r}")
-            return self._ext(T(e.value), "item")
+            return self._ext(T(e.value), "item") | self._ext(T(sl), "askey")
         if isinstance(e, ast.Starred):
             return self._ext(T(e.value), "elem")
         if isinstance(e, ast.IfExp):
